@@ -94,7 +94,7 @@ pub fn gen_history(rng: &mut Rng, recipe: &str, max_solves: usize) -> Vec<SOp> {
         "bulk" => {
             // an instance whose DIMACS text is larger than a pipe buffer / a 64 KiB chunk, trivially satisfiable
             // (every clause contains the literal 1): the bytes the external program receives are compared in full
-            let n = rng.range(9000, 14000);
+            let n = rng.range(6300, 6700);      // about 70 KiB of text; the model-side printer is slow on more
             for i in 0..n {
                 let x = (i % 40 + 2) as isize;
                 let y = ((i * 7) % 41 + 2) as isize;
@@ -102,7 +102,6 @@ pub fn gen_history(rng: &mut Rng, recipe: &str, max_solves: usize) -> Vec<SOp> {
             }
             ops.push(SOp::Solve(vec![1]));
             ops.push(SOp::NVars);
-            ops.push(SOp::Solve0);
         }
         "units" => {
             let k = rng.range(1, 7);
@@ -334,13 +333,14 @@ const SAT_PROBLEMS: [(&str, &str); 15] = [
 /// dimacs: the bytes received by the external solver, for histories and for argumentation queries.
 pub fn run_dimacs(rng: &mut Rng, count: usize, thorough: bool, extra: &[String], out: &mut Out) {
     let env = Env::from_extra(extra);
+    let first_shard = (0..extra.len()).all(|i| extra[i] != "--shard" || extra[i + 1].starts_with("0/"));
     for k in 0..count {
         let dump = env.file(&format!("dump{}.txt", k));
         let _ = std::fs::remove_file(&dump);
         if k % 2 == 0 {
             // a history on the solver object itself
-            // the first history of every shard is the bulk one (instance text above 64 KiB)
-            let recipe = if k == 0 { "bulk" } else { RECIPES[(k / 2) % RECIPES.len()] };
+            // the first history of the first shard is the bulk one (instance text above 64 KiB)
+            let recipe = if k == 0 && first_shard { "bulk" } else { RECIPES[(k / 2) % RECIPES.len()] };
             let ops = gen_history(rng, recipe, if thorough { 8 } else { 5 });
             out.case(&format!("dimacs/hist/{}", recipe));
             for o in ops.iter() { out.inp(&o.to_line()); }
